@@ -45,7 +45,9 @@ func init() {
 		Assumptions: []string{"the release function and RegisterChainKey are only reached through the module call sites analysed here", "a function does not release a lock that its caller acquired"},
 		Floors:      map[string]int{"D1": 4, "D2": 2, "D3": 4, "D4": 1, "D5": 2},
 		Borrows: []Borrow{
-			{From: "C15", Rules: []string{"D6"}, Why: "D4/D5 rely on the contract of the per-device priority queue: NextAll hands over every parked item (the queue is empty on a nil return), Next yields the lowest counter, nothing is lost; a drain that stops early leaves decryptable messages parked"},
+			{From: "C15", Rules: []string{"D1", "D2", "D3", "D4", "D5", "D6"}, Why: "the consumer loop is fed by the FIFO queue and the per-device priority queues (both anchors of this property): an item lost, duplicated or left behind a lost wake-up is a message not delivered, or delivered twice; D4/D5 rely on NextAll handing over every parked item (the queue is empty on a nil return) and Next yielding the lowest counter"},
+			{From: "C05", Rules: []string{"D4"}, Why: "a chain-key announcement releases the parked messages only if the group context sees it: activation must subscribe to metadata events before it lists the past ones, else an announcement arriving in between is seen by neither path and that sender's messages stay parked (group_context.go is an anchor of this property)"},
+			{From: "C14", Rules: []string{"D1"}, Why: "opening a message's push payload first must not consume its precomputed key: the log entry arriving afterwards would fail to open on every retry and stay parked for good"},
 		},
 		Run:         runC08,
 	})
